@@ -100,14 +100,11 @@ DenseOfTerms(types, terms0) ==
 HcTerm(t) == [c |-> GConj(t.c), raw |-> t.raw,
               ops |-> [k \in 1..Len(t.ops) |-> <<HcName(t.ops[Len(t.ops) + 1 - k][1]), t.ops[Len(t.ops) + 1 - k][2]>>]]
 
-\* non-zero entries <<row, col, re, im>> (0-based) in row-major order: the compact form handed to the harness
-RECURSIVE SparseRow(_, _, _)
-SparseRow(A, r, s) == IF s > NCols(A) THEN <<>>
-                      ELSE (IF GIsZero(A[r][s]) THEN <<>> ELSE <<<<r - 1, s - 1, A[r][s][1], A[r][s][2]>>>>)
-                           \o SparseRow(A, r, s + 1)
-RECURSIVE SparseFrom(_, _)
-SparseFrom(A, r) == IF r > NRows(A) THEN <<>> ELSE SparseRow(A, r, 1) \o SparseFrom(A, r + 1)
-Sparse(A) == [n |-> NRows(A), e |-> SparseFrom(A, 1)]
+\* non-zero entries <<row, col, re, im>> (0-based), as a set: the compact form handed to the harness
+\* (no recursion: matrices of a few hundred rows must not exhaust the evaluation stack)
+Sparse(A) == [n |-> NRows(A),
+              e |-> {<<rs[1] - 1, rs[2] - 1, A[rs[1]][rs[2]][1], A[rs[1]][rs[2]][2]>> :
+                        rs \in {x \in (1..NRows(A)) \X (1..NCols(A)) : ~GIsZero(A[x[1]][x[2]])}}]
 
 -----------------------------------------------------------------------------
 \* lattice configuration  c = [name, Lx, Ly, bcx, bcy, mps, uc (Seq of site types), cells]
